@@ -353,6 +353,38 @@ def ev_fold(p, fold):
                 queue='q', arguments={'t': [v]}), 1).hex()]
 
 
+_ENV_LOGGING = []
+
+
+def ev_env_logging(on):
+    """Process environment: the application switches debug logging on (root
+    and pamqp loggers at DEBUG, a handler that formats every record) / off."""
+    def ev(p, keep):
+        from mc import lib
+        while _ENV_LOGGING:
+            _ENV_LOGGING.pop().__exit__(None, None, None)
+        if on:
+            cm = lib.debug_logging()
+            cm.__enter__()
+            _ENV_LOGGING.append(cm)
+        return 'logging ' + ('debug' if on else 'default')
+    return ev
+
+
+def env_reset():
+    while _ENV_LOGGING:
+        _ENV_LOGGING.pop().__exit__(None, None, None)
+
+
+def ev_short_prefixes(p, keep):
+    """Buffers shorter than, equal to and just longer than a frame header."""
+    out = []
+    for buf in (BUF_QD, BUF_HDR, BUF_BODY, BUF_HB, BUF_PH):
+        for n in range(0, 10):
+            out.append(decode(p, buf[:n])[1])
+    return out
+
+
 def ev_mid_failures(p, keep):
     """Encodes refused and decodes failing in the middle of a (nested)
     container, after earlier members were handled."""
@@ -471,6 +503,9 @@ EVENTS = [
     ('env: decimal context prec=6', ev_env_decimal(6)),
     ('env: decimal context traps Rounded', ev_env_decimal('traps')),
     ('env: decimal context default', ev_env_decimal(None)),
+    ('env: debug logging on', ev_env_logging(True)),
+    ('env: debug logging off', ev_env_logging(False)),
+    ('unmarshal prefixes of 0..9 bytes', ev_short_prefixes),
     ('encode Decimal 21474836.47', lambda p, keep: p.encode.field_table(
         {'d': [A.D('21474836.47'), A.D('-1234567.89'), A.D('1E-28')]}).hex()),
     ('decode Decimal 21474836.47', lambda p, keep: c(p.decode.field_array(
